@@ -112,77 +112,196 @@ Proof.
     + eapply U2; eauto.
 Qed.
 
-(* one example: an expression statement of loads *)
-Lemma DI_example : forall s ln e, DI s -> s1_expr e = true ->
-  let s' := scan_doctest true (pre ++ [T]) s (SExpr ln e) in
-  DI s' /\ MarkExt (checkers s) (checkers s') /\
-  (forall d c, In d (loads e) -> dict_get (scope_dict sB T) [hd 0%N d] = Some (Chk c) -> c_used (nth c (checkers s') ckd) = true).
+(* the stores of an assignment example go into the example's own scope D *)
+Record DW (D : nat) (s : st) : Prop := mkDW {
+  w_di : DI s; w_lt : D < next_id s; w_plain : forall k v, In (k, v) (scope_dict s D) -> v = Plain }.
+
+Lemma top_TD : forall D, top (pre ++ [T; D]) = D.
+Proof. intro D. replace (pre ++ [T; D]) with ((pre ++ [T]) ++ [D]) by (rewrite <- app_assoc; reflexivity). apply top_snoc. Qed.
+
+Lemma DW_store : forall s D n, DW D s -> D <> T -> D <> delayed_id -> n <> n_star ->
+  let s' := store true s (pre ++ [T; D]) [n] Plain in
+  DW D s' /\ checkers s' = checkers s /\ next_id s' = next_id s.
 Proof.
-  intros s ln e HD He. cbv zeta. unfold scan_doctest. rewrite push_t by exact (d_sinv _ HD).
-  set (D := next_id s). set (sa := snd (new_scope s KNormal [])).
+  intros s D n [HD Hlt Hpl] HDT HDd Hn. cbv zeta.
+  rewrite store_true_noreport.
+  2:{ rewrite top_TD. intros c Hc. apply dict_get_In' in Hc. apply Hpl in Hc. discriminate. }
+  rewrite top_TD.
+  destruct (set_in_scope_fields s D [n] Plain) as (_ & _ & Efd & Ed & Enx & _).
+  destruct (set_in_scope_same_fields s D [n] Plain) as (Ec & _ & _).
+  split; [|split; [exact Ec|exact Enx]].
+  constructor.
+  - constructor.
+    + rewrite er_set_in_scope. apply SInv_store. exact (d_sinv _ HD). exact Hlt. exact HDd. left. split. reflexivity. exact Hn.
+    + rewrite Efd. exact (d_fd _ HD).
+    + rewrite Ed. exact (d_def _ HD).
+    + rewrite scope_dict_set_in_scope. assert (E : Nat.eqb D T = false) by (apply Nat.eqb_neq; exact HDT). rewrite E. exact (d_T _ HD).
+    + rewrite Ec. exact (d_mk _ HD).
+    + rewrite Enx. exact (d_lt _ HD).
+  - rewrite Enx. exact Hlt.
+  - intros k v. rewrite scope_dict_set_in_scope, Nat.eqb_refl. intro Hin. eapply dict_set_In_plain; [|exact Hin]. exact Hpl.
+Qed.
+
+Lemma DW_target : forall t, s1_target t = true -> forall s D, DW D s -> D <> T -> D <> delayed_id ->
+  let s' := vtarget true t (pre ++ [T; D]) s in
+  DW D s' /\ checkers s' = checkers s /\ next_id s' = next_id s.
+Proof.
+  intro t. induction t using target_ind'; cbn [s1_target vtarget]; intros Hs s D HW HDT HDd; try discriminate.
+  - apply DW_store; auto. apply not_star_neq. exact Hs.
+  - revert s HW. induction H as [|x ts Hx Hts IH]; intros s HW. auto.
+    apply andb_true_iff in Hs as [H1 H2].
+    destruct (Hx H1 s D HW HDT HDd) as (W1 & C1 & N1). destruct (IH H2 _ W1) as (W2 & C2 & N2).
+    split. exact W2. split; congruence.
+Qed.
+
+Lemma DW_targets : forall ts, forallb s1_target ts = true -> forall s D, DW D s -> D <> T -> D <> delayed_id ->
+  let s' := fold_left (fun s t => vtarget true t (pre ++ [T; D]) s) ts s in
+  DW D s' /\ checkers s' = checkers s /\ next_id s' = next_id s.
+Proof.
+  induction ts as [|t ts IH]; intros Hs s D HW HDT HDd; cbn [fold_left]. auto.
+  cbn in Hs. apply andb_true_iff in Hs as [H1 H2].
+  destruct (DW_target t H1 s D HW HDT HDd) as (W1 & C1 & N1). destruct (IH H2 _ D W1 HDT HDd) as (W2 & C2 & N2).
+  split. exact W2. split; congruence.
+Qed.
+
+Definition xloads (x : stmt) : list dotted :=
+  match x with SExpr _ e => loads e | SAssign _ _ v => loads v | _ => [] end.
+
+Lemma DI_finish : forall s D, DI s -> next_id s <= S D -> finish_deferred (pre ++ [T; D]) s = s.
+Proof.
+  intros s D HD Hn. unfold finish_deferred. rewrite (d_def _ HD). cbn [fold_left].
+  rewrite pending_none. cbn [fold_left]. rewrite <- (d_def _ HD). apply with_deferred_id.
+  apply fresh_er. exact (sv_fresh _ (d_sinv _ HD)). rewrite top_TD. exact Hn.
+Qed.
+
+(* one example: an expression statement of loads, or an assignment of such an expression to names *)
+Lemma DI_example : forall s x, DI s -> dx_stmt x = true ->
+  let s' := scan_doctest true (pre ++ [T]) s x in
+  DI s' /\ MarkExt (checkers s) (checkers s') /\
+  (forall d c, In d (xloads x) -> dict_get (scope_dict sB T) [hd 0%N d] = Some (Chk c) -> c_used (nth c (checkers s') ckd) = true).
+Proof.
+  intros s x HD Hx. cbv zeta. unfold scan_doctest. rewrite push_t by exact (d_sinv _ HD).
+  set (D := next_id s).
   assert (Hf : fresh s) by (apply fresh_er; exact (sv_fresh _ (d_sinv _ HD))).
-  pose proof (new_scope_spec s KNormal [] Hf) as Hn. fold sa in Hn.
-  destruct (new_scope s KNormal []) as [i0 sa0] eqn:En. cbn [snd] in sa. subst sa.
+  pose proof (new_scope_spec s KNormal [] Hf) as Hn.
+  destruct (new_scope s KNormal []) as [i0 sa0] eqn:En. cbn [snd].
   destruct Hn as (_ & Hfa & Enx & Hg & _ & Eda & Efa & _ & Eca & _).
   assert (Hsda : forall j, scope_dict sa0 j = if Nat.eqb j D then [] else scope_dict s j).
   { intro j. unfold scope_dict. rewrite Hg. assert (i0 = D) by (unfold new_scope in En; injection En as <- _; reflexivity). subst i0.
     destruct (Nat.eqb j D); reflexivity. }
-  assert (HDa : DI (with_ln sa0 ln)).
-  { constructor.
+  assert (HDT : D <> T) by (pose proof (d_lt _ HD); unfold D; lia).
+  assert (HDd : D <> delayed_id).
+  { pose proof (sv_next _ (d_sinv _ HD)) as H2. change (next_id (er s)) with (next_id s) in H2. unfold D, delayed_id. lia. }
+  assert (HDa : forall ln, DI (with_ln sa0 ln)).
+  { intro ln. constructor.
     - rewrite er_with_ln. apply SInv_with_ln. destruct (er_new_scope s KNormal []) as [_ E2]. cbn [erd map] in E2.
       rewrite En in E2. cbn [snd] in E2. rewrite <- E2. apply SInv_new. exact (d_sinv _ HD). intros k v []. apply rootclosed_nil. reflexivity.
     - cbn. rewrite Efa. exact (d_fd _ HD).
     - cbn. rewrite Eda. exact (d_def _ HD).
     - change (scope_dict (with_ln sa0 ln) T) with (scope_dict sa0 T). rewrite Hsda.
-      assert (E : Nat.eqb T D = false) by (apply Nat.eqb_neq; pose proof (d_lt _ HD); unfold D; lia). rewrite E. exact (d_T _ HD).
+      assert (E : Nat.eqb T D = false) by (apply Nat.eqb_neq; auto). rewrite E. exact (d_T _ HD).
     - cbn. rewrite Eca. exact (d_mk _ HD).
     - cbn. rewrite Enx. pose proof (d_lt _ HD). lia. }
-  assert (HDe : scope_dict (with_ln sa0 ln) D = []).
-  { change (scope_dict (with_ln sa0 ln) D) with (scope_dict sa0 D). rewrite Hsda, Nat.eqb_refl. reflexivity. }
-  unfold scan_node, vblock. cbn [fold_left vstmt]. rewrite vexpr_s1 by exact He.
+  assert (HDe : forall ln, scope_dict (with_ln sa0 ln) D = []).
+  { intro ln. change (scope_dict (with_ln sa0 ln) D) with (scope_dict sa0 D). rewrite Hsda, Nat.eqb_refl. reflexivity. }
   rewrite <- app_assoc. cbn [app].
-  destruct (DI_loads (loads e) (with_ln sa0 ln) D (loads_nonempty e) HDa HDe) as (HD1 & HDe1 & En1 & M1 & U1).
-  set (sc := fold_left (fun s d => load s (pre ++ [T; D]) d) (loads e) (with_ln sa0 ln)) in *.
-  unfold finish_deferred. rewrite (d_def _ HD1). cbn [fold_left].
-  rewrite pending_none.
-  2:{ apply fresh_er. exact (sv_fresh _ (d_sinv _ HD1)). }
-  2:{ rewrite En1. cbn [next_id with_ln]. rewrite Enx. replace (pre ++ [T; D]) with ((pre ++ [T]) ++ [D]) by (rewrite <- app_assoc; reflexivity).
-      rewrite top_snoc. unfold D. lia. }
-  cbn [fold_left]. rewrite <- (d_def _ HD1), with_deferred_id.
-  split. exact HD1. split. cbn in M1. rewrite Eca in M1. exact M1. exact U1.
+  destruct x; try discriminate; cbn [dx_stmt] in Hx; unfold scan_node, vblock; cbn [fold_left vstmt xloads].
+  - (* SExpr *)
+    rewrite vexpr_s1 by exact Hx.
+    destruct (DI_loads (loads e) (with_ln sa0 ln) D (loads_nonempty e) (HDa ln) (HDe ln)) as (HD1 & HDe1 & En1 & M1 & U1).
+    rewrite DI_finish; [| exact HD1 | rewrite En1; cbn; rewrite Enx; unfold D; lia].
+    split. exact HD1. split. cbn in M1. rewrite Eca in M1. exact M1. exact U1.
+  - (* SAssign *)
+    apply andb_true_iff in Hx as [Hv Ht].
+    rewrite vexpr_s1 by exact Hv.
+    destruct (DI_loads (loads value) (with_ln sa0 ln) D (loads_nonempty value) (HDa ln) (HDe ln)) as (HD1 & HDe1 & En1 & M1 & U1).
+    set (sc := fold_left (fun s d => load s (pre ++ [T; D]) d) (loads value) (with_ln sa0 ln)) in *.
+    assert (HW : DW D sc).
+    { constructor. exact HD1. rewrite En1. cbn. rewrite Enx. unfold D. lia. rewrite HDe1. intros k v0 []. }
+    destruct (DW_targets targets Ht sc D HW HDT HDd) as (W2 & C2 & N2).
+    rewrite DI_finish; [| exact (w_di _ _ W2) | rewrite N2, En1; cbn; rewrite Enx; unfold D; lia].
+    split. exact (w_di _ _ W2). split. rewrite C2. cbn in M1. rewrite Eca in M1. exact M1.
+    intros d c Hd Hc. rewrite C2. eapply U1; eauto.
 Qed.
 
 Lemma DI_examples : forall exs s, DI s -> forallb dx_stmt exs = true ->
   let s' := fold_left (scan_doctest true (pre ++ [T])) exs s in
   DI s' /\ MarkExt (checkers s) (checkers s') /\
-  (forall ln e d c, In (SExpr ln e) exs -> In d (loads e) -> dict_get (scope_dict sB T) [hd 0%N d] = Some (Chk c) ->
-                    c_used (nth c (checkers s') ckd) = true).
+  (forall x d c, In x exs -> In d (xloads x) -> dict_get (scope_dict sB T) [hd 0%N d] = Some (Chk c) ->
+                 c_used (nth c (checkers s') ckd) = true).
 Proof.
   induction exs as [|x exs IH]; intros s HD Hx; cbn [fold_left].
-  - split. exact HD. split. apply MarkExt_refl. intros ? ? ? ? [].
-  - cbn in Hx. apply andb_true_iff in Hx as [H1 H2]. destruct x; try discriminate. cbn [dx_stmt] in H1.
-    destruct (DI_example s ln e HD H1) as (HD1 & M1 & U1).
+  - split. exact HD. split. apply MarkExt_refl. intros ? ? ? [].
+  - cbn in Hx. apply andb_true_iff in Hx as [H1 H2].
+    destruct (DI_example s x HD H1) as (HD1 & M1 & U1).
     destruct (IH _ HD1 H2) as (HD2 & M2 & U2).
     split. exact HD2. split. eapply MarkExt_trans; eauto.
-    intros ln0 e0 d c [E|Hin] Hd Hc.
-    + injection E as <- <-. apply (me_used _ _ M2). eapply U1; eauto.
+    intros x0 d c [<-|Hin] Hd Hc.
+    + apply (me_used _ _ M2). eapply U1; eauto.
     + eapply U2; eauto.
 Qed.
 
 End Doc.
 
 (* ---------- the PySem side: load-only examples in the final module frame ---------- *)
-Lemma dx_sem : forall exs M, forallb dx_stmt exs = true ->
-  fst (sem_block exs [M]) = [M] /\
-  forall r, In r (snd (sem_block exs [M])) ->
-    exists ln e d, In (SExpr ln e) exs /\ In d (loads e) /\ r = (ln, hd 0%N d, resolve (hd 0%N d) [M]).
+(* frames that differ from M by bindings made by doctest examples (never an import) *)
+Definition QF (M M' : frame) : Prop :=
+  forall x l i, lookup_b x (fdyn M') = Some (BImp l i) -> lookup_b x (fdyn M) = Some (BImp l i).
+Lemma QF_bind : forall M M' n, QF M M' -> QF M (bind n BOther M').
 Proof.
-  induction exs as [|x exs IH]; intros M Hx. split. reflexivity. intros r [].
-  cbn in Hx. apply andb_true_iff in Hx as [H1 H2]. destruct x; try discriminate. cbn [dx_stmt] in H1.
-  cbn [sem_block sem_stmt]. destruct (IH M H2) as [E1 E2]. destruct (sem_block exs [M]) as [e2 r2]. cbn [fst snd] in *.
-  split. exact E1. intros r Hr. apply in_app_iff in Hr as [Hr|Hr].
-  - rewrite sem_expr_s1 in Hr by exact H1. apply in_map_iff in Hr as (d & <- & Hd). exists ln, e, d. split. left; reflexivity. auto.
-  - destruct (E2 r Hr) as (ln0 & e0 & d & A & B & C). exists ln0, e0, d. split. right; exact A. auto.
+  intros M M' n H x l i. unfold bind. cbn [fdyn lookup_b]. destruct (N.eqb x n). discriminate. apply H.
+Qed.
+
+Lemma exec_target_Q : forall t, s1_target t = true -> forall ln outer M M', QF M M' ->
+  exists M'', exec_target ln outer M' t = (M'', []) /\ QF M M''.
+Proof.
+  intro t. induction t using target_ind'; cbn [s1_target exec_target]; intros Hs ln outer M M' HQ; try discriminate.
+  - eexists. split. reflexivity. apply QF_bind. exact HQ.
+  - revert M' HQ. induction H as [|x ts Hx Hts IH]; intros M' HQ. eexists; split; [reflexivity|exact HQ].
+    apply andb_true_iff in Hs as [H1 H2].
+    destruct (Hx H1 ln outer M M' HQ) as (M1 & E1 & Q1). rewrite E1.
+    destruct (IH H2 M1 Q1) as (M2 & E2 & Q2). rewrite E2. eexists. split. reflexivity. exact Q2.
+Qed.
+
+Lemma targets_Q : forall ts, forallb s1_target ts = true -> forall ln M M' r, QF M M' ->
+  exists M'', fold_left (fun acc t => let '(e, r) := acc in
+                                     let '(e', r') := exec_target_env ln e t in (e', r ++ r')) ts (([M'] : env), r) = (([M''] : env), r) /\ QF M M''.
+Proof.
+  induction ts as [|t ts IH]; intros Hs ln M M' r HQ; cbn [fold_left]. eexists; split; [reflexivity|exact HQ].
+  cbn in Hs. apply andb_true_iff in Hs as [H1 H2].
+  destruct (exec_target_Q t H1 ln [] M M' HQ) as (M1 & E1 & Q1).
+  assert (E : exec_target_env ln [M'] t = ([M1], [])).
+  { unfold exec_target_env. change (tl [M']) with (@nil frame). change (head [M']) with M'. rewrite E1. reflexivity. }
+  rewrite E. rewrite app_nil_r. apply IH; assumption.
+Qed.
+
+Lemma dx_sem : forall exs M M', QF M M' -> forallb dx_stmt exs = true ->
+  forall r, In r (snd (sem_block exs [M'])) ->
+    exists x d ln res, In x exs /\ In d (xloads x) /\ r = (ln, hd 0%N d, res) /\
+      forall l i, res = Bound (BImp l i) -> lookup_b (hd 0%N d) (fdyn M) = Some (BImp l i).
+Proof.
+  induction exs as [|x exs IH]; intros M M' HQ Hx r Hr. destruct Hr.
+  cbn in Hx. apply andb_true_iff in Hx as [H1 H2].
+  assert (Hres : forall ln e, s1_expr e = true -> forall r0, In r0 (sem_expr ln [M'] e) ->
+            exists d res, In d (loads e) /\ r0 = (ln, hd 0%N d, res) /\
+              forall l i, res = Bound (BImp l i) -> lookup_b (hd 0%N d) (fdyn M) = Some (BImp l i)).
+  { intros ln e He r0 Hr0. rewrite sem_expr_s1 in Hr0 by exact He. apply in_map_iff in Hr0 as (d & <- & Hd).
+    exists d, (resolve (hd 0%N d) [M']). split. exact Hd. split. reflexivity.
+    intros l i E. cbn [resolve resolve_outer] in E. destruct (lookup_b (hd 0%N d) (fdyn M')) eqn:El; try discriminate.
+    injection E as ->. apply HQ. exact El. }
+  destruct x; try discriminate; cbn [dx_stmt] in H1; cbn [sem_block sem_stmt] in Hr.
+  - (* SExpr *)
+    destruct (sem_block exs [M']) as [e2 r2] eqn:E2. cbn [snd] in Hr. apply in_app_iff in Hr as [Hr|Hr].
+    + destruct (Hres ln e H1 r Hr) as (d & res & A & B & C). exists (SExpr ln e), d, ln, res. cbn [xloads]. split. left; reflexivity. auto.
+    + assert (Hr' : In r (snd (sem_block exs [M']))) by (rewrite E2; exact Hr).
+      destruct (IH M M' HQ H2 r Hr') as (x & d & ln0 & res & A & B & C). exists x, d, ln0, res. split. right; exact A. auto.
+  - (* SAssign *)
+    apply andb_true_iff in H1 as [Hv Ht].
+    destruct (targets_Q targets Ht ln M M' [] HQ) as (M1 & E1 & Q1). rewrite E1 in Hr.
+    destruct (sem_block exs [M1]) as [e2 r2] eqn:E2. cbn [snd] in Hr. rewrite app_nil_r in Hr. apply in_app_iff in Hr as [Hr|Hr].
+    + destruct (Hres ln value Hv r Hr) as (d & res & A & B & C). exists (SAssign ln targets value), d, ln, res. cbn [xloads]. split. left; reflexivity. auto.
+    + assert (Hr' : In r (snd (sem_block exs [M1]))) by (rewrite E2; exact Hr).
+      destruct (IH M M1 Q1 H2 r Hr') as (x & d & ln0 & res & A & B & C). exists x, d, ln0, res. split. right; exact A. auto.
 Qed.
 
 Lemma forallb_flat_map : forall A B (f : B -> bool) (g : A -> list B) l,
@@ -373,16 +492,16 @@ Proof.
       apply in_flat_map in Hread as (d & Hd & Hread). unfold sem_docstring in Hread. cbn [head hd] in Hread.
       assert (Hdd : forallb dx_stmt (fst d) = true).
       { unfold dx_docs in Hdx. rewrite forallb_forall in Hdx. apply (Hdx d Hd). }
-      destruct (dx_sem (fst d) Mb1 Hdd) as [_ Hev]. destruct (Hev _ Hread) as (ln' & e & dd & Hex & Hdl & Eq).
-      injection Eq as _ En Er. subst n.
-      cbn [resolve resolve_outer] in Er. rewrite Hdyn1 in Er.
-      destruct (lookup_b (hd 0%N dd) Md1) as [b|] eqn:Elk; try discriminate. injection Er as <-.
+      assert (HQ0 : QF Mb1 Mb1) by (intros ? ? ? H; exact H).
+      destruct (dx_sem (fst d) Mb1 Mb1 HQ0 Hdd _ Hread) as (xe & dd & ln' & res & Hex & Hdl & Eq & Hres).
+      injection Eq as _ En Er. subst n. symmetry in Er.
+      pose proof (Hres l i Er) as Elk. rewrite Hdyn1 in Elk.
       destruct (u_mod2 _ _ _ _ _ _ _ HU1 _ l i Elk) as (c & Hc & A & B).
       assert (Hclt : c < length (checkers s1)).
       { destruct (u_top _ _ _ _ _ _ _ HU1 _ _ (dict_get_In' _ _ _ Hc)) as [_ [D|(c' & D & Hlt)]]. discriminate. injection D as <-. exact Hlt. }
       exists c. unfold checker_at in A, B. fold ckd in A, B. split. exact Hclt. split. exact A. split. exact B.
       rewrite E3. cbn [checkers with_checkers]. apply (me_used _ _ M3). cbn [checkers with_unused].
-      apply (U2 ln' e dd c).
+      apply (U2 xe dd c).
       + unfold exs. apply in_flat_map. exists d. split; assumption.
       + exact Hdl.
       + rewrite EdB. exact Hc. }
